@@ -76,7 +76,7 @@ def c05():
 
 @reg("C06")
 def c06():
-    return minthist.check("C06", level="exploration")
+    return minthist.check("C06", level="exploration", malformed=5, probe="passive", num=50 if tier() == "quick" else 1200)
 
 
 @reg("C07")
